@@ -56,11 +56,11 @@ pub fn run_case(c: &Case, r: &mut Report) {
                 let mut cfg = ParserCfg { footer: footer.clone(), assertion: ia.clone(), default_parser: *default_parser, ..Default::default() };
                 match pcfg {
                     1 => cfg.expected = vec![Claim::Aud("customers".into())],
-                    2 => cfg.validators = vec![VSpec { claim: Claim::Custom("k".into(), json!("dummy")), behave: VBehave::Accept, reg: VReg::ValidateClaim, second: false }],
-                    3 => cfg.validators = vec![VSpec { claim: Claim::Custom("absent".into(), json!("dummy")), behave: VBehave::Accept, reg: if *layer == Layer::Generic { VReg::ExtendOnly } else { VReg::ValidateClaim }, second: false }],
+                    2 => cfg.validators = vec![VSpec { claim: Claim::Custom("k".into(), json!("dummy")), behave: VBehave::Accept, reg: VReg::ValidateClaim, second: false, odd: 0 }],
+                    3 => cfg.validators = vec![VSpec { claim: Claim::Custom("absent".into(), json!("dummy")), behave: VBehave::Accept, reg: if *layer == Layer::Generic { VReg::ExtendOnly } else { VReg::ValidateClaim }, second: false, odd: 0 }],
                     _ => {
                         cfg.expected = vec![Claim::Custom("a".into(), json!(1))];
-                        cfg.validators = vec![VSpec { claim: Claim::Sub("dummy".into()), behave: VBehave::AcceptIfPresent, reg: VReg::ValidateClaim, second: false }];
+                        cfg.validators = vec![VSpec { claim: Claim::Sub("dummy".into()), behave: VBehave::AcceptIfPresent, reg: VReg::ValidateClaim, second: false, odd: 0 }];
                         cfg.expected_via_extend = *layer == Layer::Generic;
                     }
                 }
